@@ -215,6 +215,10 @@ def check(ctx):
     with ctx.shared({"C02.R3": ("C07.R6", "the purge really empties the socket's share of the prefix table: removal by source deletes every element of "
                                 "that source (slot re-examined after a deletion, node re-examined after a pull-up, both children, both families)")}):
         C02.r3(ctx, retsets)
+    from specs import C10
+    with ctx.shared({"C10.R3": ("C07.R7", "the purge really empties the socket's share of the router-key table: the removal walk moves one entry at a "
+                                "time and ends only at the end of the list (or on failure)")}):
+        C10.r_walks(ctx, only=["spki_table_src_remove"])
     ctx.not_decided("real time: the check is about which comparison is made and what follows it, not about clocks")
 
 
